@@ -87,6 +87,7 @@ var config = []fnCfg{
 	{Name: "Conn.h_904", File: "client/handlers.go"},
 	{Name: "Conn.h_908", File: "client/handlers.go"},
 	{Name: "Conn.h_CTCP", File: "client/handlers.go"},
+	{Name: "Conn.handleCapNak", File: "client/handlers.go"},
 }
 
 // pkg is what is known about the Go package: declarations only, no type checking.
